@@ -32,7 +32,7 @@ func main() {
 		hx.GenProbe(2000, len(os.Args) > 2 && os.Args[2] == "vm")
 		return
 	}
-	needDriver := map[string]bool{"c11": true, "c12": true, "c17": true}
+	needDriver := map[string]bool{"c11": true, "c12": true, "c17": true, "c16": true}
 	var d *hx.Driver
 	if needDriver[os.Args[1]] {
 		var err error
@@ -51,6 +51,8 @@ func main() {
 		rep = hx.RunC12(d)
 	case "c17":
 		rep = hx.RunC17(d)
+	case "c16":
+		rep = hx.RunC16(d)
 	default:
 		fmt.Fprintln(os.Stderr, "unknown component", os.Args[1])
 		os.Exit(2)
